@@ -274,6 +274,51 @@ def _api_history(seed):
     healthy = ["numpy", "numpy.numpylike", "numpy.einsum"]
     stack = []                              # names of the active blocks, innermost last (the specification)
 
+    # a healthy framework of low priority next to numpy: numpy arrays and scalars (Python or numpy ones) defer to it
+    import einx._src.frontend.backend as B
+    low = f"lowfw{seed}"
+    sys.modules[low] = types.ModuleType(low)
+
+    class LowTensor:
+        __module__ = low
+    low_prio = rng.choice([-2, -3, 0, 1])
+    registry.register_on_import(low, low, lambda: B.Backend(ops={}, name=low, priority=low_prio, optimizations=[], compiler=None,
+                                                            is_supported_tensor=lambda t: isinstance(t, LowTensor), get_shape=None))
+
+    def defer_check():
+        other = rng.choice([x, 1.5, 2, np.float32(2), x.sum(), x[0, 0], np.int64(3), True])
+        # the numpy backends (priority -1) accept numpy arrays only: next to a scalar of any kind the other framework is the one candidate;
+        # next to an array the higher priority decides
+        both = "numpy" if (isinstance(other, np.ndarray) and low_prio < -1) else low
+        for tensors, want in (([LowTensor(), other], both), ([other, LowTensor()], both), ([other], "numpy")):
+            try:
+                got = einx.backend.get(None, tensors).name
+            except BaseException as e:  # noqa: BLE001
+                got = "raises " + type(e).__name__
+            if not stack and got != want:
+                out.append(({"kind": "api_numpy_values_do_not_defer", "next_to": type(other).__name__, "selected": got},
+                            {"seed": seed, "arguments": [type(t).__name__ for t in tensors], "expected": want}))
+
+    def executing_backend_check():
+        # which backend executes is what was selected - whatever was selected for the same operation before
+        b = rng.choice(healthy)
+        y = np.arange(12, dtype=np.float64).reshape(3, 4)
+        try:
+            text = einx.dot("a b, b c -> a c", x, y, backend=b, graph=True)
+            ok = ("np.matmul" in text) == (b == "numpy.numpylike") and ("np.einsum" in text) == (b != "numpy.numpylike")
+        except BaseException as e:  # noqa: BLE001
+            text, ok = "raises " + type(e).__name__, False
+        if not ok:
+            out.append(({"kind": "api_operation_executed_by_another_backend", "selected": b}, {"seed": seed, "code": text[:300]}))
+        try:
+            einx.flip("a [b]", x, backend=b)
+            got = "ok"
+        except BaseException as e:  # noqa: BLE001
+            got = type(e).__name__
+        want = "OperationNotSupportedError" if b == "numpy.einsum" else "ok"
+        if got != want:
+            out.append(({"kind": "api_operation_executed_by_another_backend", "selected": b, "flip": got}, {"seed": seed, "expected": want}))
+
     class Boom(Exception):
         pass
 
@@ -324,6 +369,10 @@ def _api_history(seed):
                 if got != "ImportBackendError":
                     out.append(({"kind": "api_failed_backend_selected", "argument": type(arg).__name__, "outcome": got, "by": how}, {"seed": seed, "stack": list(stack)}))
                 check("failed_backend_call")
+            elif r < 0.85:
+                defer_check()
+            elif r < 0.95:
+                executing_backend_check()
             else:
                 check("lookup")
     try:
